@@ -517,6 +517,10 @@ class AtomsCollection:
         if not self.has(name):
             raise ValueError(f"Array '{name}' does not exist")
 
+        if self.length == 0:
+            # Nothing to sort (and zip(*sorted([])) below would be empty)
+            return self[:]
+
         arr_names = list(self._arrays.keys())
         data_block = zip(self.structures, *[self._arrays[n] for n in arr_names])
         key_i = arr_names.index(name)
